@@ -22,6 +22,17 @@ import (
 // directory without faults: its content must equal the model of the acknowledged operations.
 type SysCase struct {
 	Program prog.Program `json:"program"`
+	// Syscall: instead of a failing table writer, the When-th write(2) call of some thread of the child fails with
+	// Errno (strace fault injection; the call is not executed). Which write that is depends on the schedule - any of
+	// them is a legitimate I/O failure, and the oracle does not depend on which one it was.
+	Syscall *SyscallFault `json:"syscall,omitempty"`
+}
+
+type SyscallFault struct {
+	// Path, relative to the database directory: only writes to that file count ("" = any write of the process).
+	Path  string `json:"path,omitempty"`
+	When  int    `json:"when"`
+	Errno string `json:"errno"` // EIO | ENOSPC
 }
 
 func SysGen() *rapid.Generator[Case] {
@@ -29,6 +40,23 @@ func SysGen() *rapid.Generator[Case] {
 		p := c02.ProgramGen(false).Draw(t, "program")
 		for i := range p.Sessions {
 			p.Sessions[i].NoClose = false
+		}
+		if rapid.Bool().Draw(t, "syscallfault") {
+			sf := &SyscallFault{Errno: rapid.SampledFrom([]string{"EIO", "ENOSPC"}).Draw(t, "errno")}
+			if rapid.IntRange(0, 3).Draw(t, "targeted") > 0 {
+				// a named file of the n-th flushed table or the n-th write-ahead log file
+				n := rapid.IntRange(1, 4).Draw(t, "n")
+				f := rapid.SampledFrom([]string{"data.rio", "index.rio", "bloom.bf.gz", "meta.pb.bin", "wal"}).Draw(t, "file")
+				if f == "wal" {
+					sf.Path = fmt.Sprintf("wal/%06d.wal", n)
+				} else {
+					sf.Path = fmt.Sprintf("sstable_%015d/%s", n, f)
+				}
+				sf.When = rapid.IntRange(1, 6).Draw(t, "when")
+			} else {
+				sf.When = rapid.IntRange(4, 120).Draw(t, "when")
+			}
+			return Case{Kind: "system", Sys: &SysCase{Program: p, Syscall: sf}}
 		}
 		p.Fault = &prog.WriterFault{
 			Target: rapid.SampledFrom([]string{"flush", "compaction", "compaction"}).Draw(t, "target"),
@@ -61,6 +89,16 @@ func sysProp(c Case, x *h.Ctx) *h.Violation {
 		build = "/verif/.build"
 	}
 	cmd := exec.Command(filepath.Join(build, "runner"), pfile, root, ack)
+	if sc := c.Sys.Syscall; sc != nil {
+		x.Label("leg=system-syscall-fault")
+		args := []string{"-f", "-qq", "-o", "/dev/null", "-e", "trace=write"}
+		if sc.Path != "" {
+			args = append(args, "-P", filepath.Join(root, sc.Path))
+			x.Label("syscall-fault-file=" + filepath.Base(filepath.Dir(sc.Path))[:3] + "/" + filepath.Ext(sc.Path))
+		}
+		args = append(args, "-e", fmt.Sprintf("inject=write:error=%s:when=%d", sc.Errno, sc.When), filepath.Join(build, "runner"), pfile, root, ack)
+		cmd = exec.Command("strace", args...)
+	}
 	cmd.Dir = work
 	out := &strings.Builder{}
 	cmd.Stdout, cmd.Stderr = out, out
@@ -79,7 +117,7 @@ func sysProp(c Case, x *h.Ctx) *h.Violation {
 		}
 	case <-time.After(30 * time.Second):
 		_ = cmd.Process.Kill()
-		return h.V("iofault/system/hang", "the child did not finish within 30 s after an injected %s %s-writer failure (deadlock?)", p.Fault.Target, p.Fault.Which)
+		return h.V("iofault/system/hang", "the child did not finish within 30 s after the injected failure %s (deadlock?)", faultDesc(c.Sys))
 	}
 	ops := p.Ops()
 	called := make([]bool, len(ops))
@@ -123,16 +161,20 @@ func sysProp(c Case, x *h.Ctx) *h.Violation {
 		}
 	}
 	got, oerr := crash.ReadAll(root, p.Keys, true)
-	desc := fmt.Sprintf("fault: %s #%d %s writer fails at write %d (sticky=%v); child exit status %d", p.Fault.Target, p.Fault.Nth, p.Fault.Which, p.Fault.Pos, p.Fault.Sticky, exit)
+	desc := fmt.Sprintf("fault: %s; child exit status %d", faultDesc(c.Sys), exit)
+	target := "syscall"
+	if p.Fault != nil {
+		target = p.Fault.Target
+	}
 	if oerr != nil {
-		return h.V("iofault/system/"+oerr.Phase+"-failed/"+p.Fault.Target+"/"+oerr.Class(), "%s; opening the directory afterwards failed in %s: %.600s\nchild output: %.600s", desc, oerr.Phase, oerr.Err, out.String())
+		return h.V("iofault/system/"+oerr.Phase+"-failed/"+target+"/"+oerr.Class(), "%s; opening the directory afterwards failed in %s: %.600s\nchild output: %.600s", desc, oerr.Phase, oerr.Err, out.String())
 	}
 	if fired && exit == 0 && !opErr {
 		where := "a write"
-		if p.Fault.Pos < 0 {
+		if p.Fault != nil && p.Fault.Pos < 0 {
 			where = "the Close (final flush)"
 		}
-		return h.V("iofault/system/absorbed/"+p.Fault.Target, "%s; the injected failure of %s fired, yet no operation returned an error and the process did not stop: the failure was absorbed\nchild output: %.600s", desc, where, out.String())
+		return h.V("iofault/system/absorbed/"+target, "%s; the injected failure of %s fired, yet no operation returned an error and the process did not stop: the failure was absorbed\nchild output: %.600s", desc, where, out.String())
 	}
 	want := crash.ModelAfter(p, ops, acked)
 	d := crash.Diff(want, got)
@@ -151,15 +193,15 @@ func sysProp(c Case, x *h.Ctx) *h.Violation {
 		}
 	}
 	if d != "" {
-		return h.V("iofault/system/content/"+p.Fault.Target, "%s; the directory afterwards does not hold the acknowledged operations (expected vs found: %s): an incomplete output was installed or acknowledged data was dropped\nchild output: %.600s", desc, d, out.String())
+		return h.V("iofault/system/content/"+target, "%s; the directory afterwards does not hold the acknowledged operations (expected vs found: %s): an incomplete output was installed or acknowledged data was dropped\nchild output: %.600s", desc, d, out.String())
 	}
-	x.Label("fault-target=" + p.Fault.Target)
+	x.Label("fault-target=" + target)
 	if armed {
 		x.Label("fault-armed")
 	}
 	if fired {
 		x.Label("fault-fired")
-		if p.Fault.Pos < 0 {
+		if p.Fault != nil && p.Fault.Pos < 0 {
 			x.Label("fault-fired-at-close")
 		}
 	}
@@ -169,6 +211,17 @@ func sysProp(c Case, x *h.Ctx) *h.Violation {
 	if opErr {
 		x.Label("operation-returned-error")
 	}
-	x.SetNonTrivial(fired)
+	x.SetNonTrivial(fired || (c.Sys.Syscall != nil && (exit != 0 || opErr)))
 	return nil
+}
+
+func faultDesc(sc *SysCase) string {
+	if sc.Syscall != nil {
+		if sc.Syscall.Path != "" {
+			return fmt.Sprintf("the %d-th write(2) to %s fails with %s", sc.Syscall.When, sc.Syscall.Path, sc.Syscall.Errno)
+		}
+		return fmt.Sprintf("the %d-th write(2) of a thread of the child fails with %s", sc.Syscall.When, sc.Syscall.Errno)
+	}
+	f := sc.Program.Fault
+	return fmt.Sprintf("%s #%d %s writer fails at write %d (sticky=%v)", f.Target, f.Nth, f.Which, f.Pos, f.Sticky)
 }
